@@ -8,9 +8,9 @@ from worlds import master
 ID = "C03"
 LEVEL = "exploration"
 DESIGN_REF = "DESIGN.md §4 C03"
-QUICK_RUNS = 6400
+QUICK_RUNS = 8000
 THOROUGH_MIN_RUNS = 40000
-BATCH = 50
+BATCH = 100
 CASE_WALL_S = 60.0
 RULE = ("case = the real Arbiter.run() with 1-4 scripted stub workers (real Worker.__init__/init_process boot) on the "
         "simulated kernel under a seeded history of {worker killed by KILL/TERM/QUIT/INT, scripted worker exit with any "
